@@ -44,7 +44,7 @@ var reviewedMapLoops = map[string]struct {
 	"geom.(*doublyConnectedEdgeList).extractIntersectionMatrix": {"", "matrix entries are set in dimension-ascending passes; within a pass every write stores the same constant"},
 	"geom.(*vertexRecord).location":                             {"", "all incident edges of an unflagged vertex have the same location, so any element gives the same answer"},
 	"geom.findFacesMakingPolygon":                               {"", "set construction by flood fill; the resulting set is order independent"},
-	"geom.(nodeSet).list":                                       {"", "consumers (reNodeLineString) sort the cut points by distance and de-duplicate them"},
+	"geom.(nodeSet).list":                                       {"geom.(nodeSet).list", "the listed nodes are sorted before they are handed to the spatial index (the distance sort of the cut points has ties, so the list order would otherwise reach the output)"},
 	"geom.(graph).hasCycle":                                     {"", "pure existence test"},
 	"geom.(MultiLineString).Boundary":                           {"", "counts are accumulated in a map but emitted in first-occurrence order from a slice"},
 }
